@@ -26,6 +26,7 @@ type gen struct {
 	sawMature    bool
 	nextBatch    [2]int64
 	nCalls       [2]int64
+	slashVals    bool
 	calls        bool // outgoing bridge calls may be created (false while bridgeCallSlashing panics, C07)
 }
 
@@ -35,6 +36,7 @@ func newGen(r *lib.Rand, run *runner, idx int) *gen {
 	// them avoid the trigger of the known finding C13-2
 	g.allowUnbond = true
 	g.allowReadd = idx%2 == 0
+	g.slashVals = idx%4 >= 1 // three quarters of the histories contain staking slashes of validators
 	for m := 0; m < 2; m++ {
 		for a := 0; a < nOracles; a++ {
 			g.diligent[m][a] = r.Chance(65)
@@ -136,6 +138,12 @@ func (g *gen) run() {
 	nOps := 34 + r.Intn(14)
 	for i := 0; i < nOps; i++ {
 		m := r.Intn(2)
+		if g.slashVals && r.Chance(4) {
+			// the staking module slashes a validator (double sign 5 %, downtime 0.01 %, or something drastic)
+			frac := []string{"50000000000000000", "100000000000000", "500000000000000000", "10000000000000000", "333333333333333333"}[r.Intn(5)]
+			g.do(Op{K: "slashval", M: m, V: r.Intn(3), Amt: frac})
+			g.run_.rep.Count("validator-slashed-by-staking")
+		}
 		switch k := r.Intn(100); {
 		case k < 8:
 			g.do(g.bondOp(m, r.Intn(nOracles)))
